@@ -855,7 +855,7 @@ MUTANTS = [
      "edits": [("src/subdevice_group/mod.rs", "                let pdu = pdu?.wkc(1)?;\n\n                let result = AlControl::unpack_from_slice(&pdu)?;", "                let pdu = pdu?;\n\n                let result = AlControl::unpack_from_slice(&pdu)?;")]},
     {"id": "c01-no-revalidation", "property": "C01", "expect": "C01.S4|receive_frame:marker-revalidated-after-claim", "also": ["C20"],
      "edits": [("src/pdu_loop/pdu_rx.rs", "        if !frame.first_pdu_is(pdu_idx) {", "        if false && !frame.first_pdu_is(pdu_idx) {")]},
-    {"id": "c01-wrong-claim-dropped", "property": "C01", "expect": "C01.S4|receive_frame:marker-revalidated-after-claim", "also": ["C03"],
+    {"id": "c01-wrong-claim-dropped", "property": "C01", "expect": "C01.S4|receive_frame:marker-revalidated-after-claim",
      "edits": [("src/pdu_loop/pdu_rx.rs", "            frame.release_receiving_claim();\n\n", "")]},
     {"id": "c03-mark-sent-store", "property": "C03", "expect": "C03.tx|conditional:SendableFrame::mark_sent->Sent", "also": ["C06", "C02"],
      "edits": [("src/pdu_loop/frame_element/sendable_frame.rs", """        let _ = self
